@@ -82,10 +82,26 @@ def contains (needle : List Char) : List Char → Bool
 /-- `s[:-k]` for a literal `k > 0` -/
 def dropRight (k : Nat) (s : List α) : List α := s.take (s.length - k)
 
-/-- `int(str)`: surrounding whitespace, one optional sign, decimal digits with single `_` between digits
-    (ASCII digits only; non-ASCII digits are outside the modelled alphabet). -/
+/-- first code points of the runs of ten decimal digits of every script (`unicodedata.decimal`, Unicode 15.0:
+    the characters `int()` and `float()` accept as digits) -/
+def ndZeros : List Nat :=
+  [48, 1632, 1776, 1984, 2406, 2534, 2662, 2790, 2918, 3046, 3174, 3302, 3430, 3558, 3664, 3792, 3872, 4160, 4240,
+   6112, 6160, 6470, 6608, 6784, 6800, 6992, 7088, 7232, 7248, 42528, 43216, 43264, 43472, 43504, 43600, 44016, 65296,
+   66720, 68912, 69734, 69872, 69942, 70096, 70384, 70736, 70864, 71248, 71360, 71472, 71904, 72016, 72784, 73040,
+   73120, 73552, 92768, 92864, 93008, 120782, 120792, 120802, 120812, 120822, 123200, 123632, 124144, 125264, 130032]
+
+/-- what `int()` / `float()` read (CPython's `_PyUnicode_TransformDecimalAndSpaceToASCII`): a decimal digit of any
+    script as the ASCII digit, white space as a space; any other non-ASCII character cannot be part of a number -/
+def asciiDigit (c : Char) : Char :=
+  if c.toNat < 128 then c
+  else match ndZeros.find? (fun z => decide (z ≤ c.toNat) && decide (c.toNat < z + 10)) with
+    | some z => Char.ofNat (48 + (c.toNat - z))
+    | Option.none => if isSpace c then ' ' else '?'
+
+/-- `int(str)`: surrounding whitespace, one optional sign, decimal digits (of any script) with single `_` between
+    digits. -/
 def intOfStr (s : List Char) : Option Int :=
-  match strip s with
+  match (strip s).map asciiDigit with
   | [] => Option.none
   | c :: r =>
     if c = '-' then (String.ofList r).toNat?.map (fun n => - (n : Int))
@@ -720,34 +736,47 @@ def digitsVal (s : List Char) : Option (Nat × Nat) :=
 
 def pow10 (e : Int) : Rat := if e ≥ 0 then ((10 : Rat) ^ e.toNat) else 1 / ((10 : Rat) ^ (-e).toNat)
 
+/-- `[eE][+-]?digits` without the mark: the decimal exponent -/
+def expDigits (r : List Char) : Option Int :=
+  match r with
+  | [] => Option.none
+  | c :: t =>
+    if c = '-' then (digitsVal t).map (fun p => - (p.1 : Int))
+    else if c = '+' then (digitsVal t).map (fun p => (p.1 : Int))
+    else (digitsVal (c :: t)).map (fun p => (p.1 : Int))
+
+/-- what follows the mantissa: nothing, or the exponent mark and the exponent -/
+def expoOf (rest : List Char) : Option Int :=
+  match rest with
+  | [] => some 0
+  | _ :: e => expDigits e
+
+/-- `digits [. [digits]]` or `. digits` -/
+def mantOf (mant : List Char) : Option Rat :=
+  match mant.takeWhile (fun c => c != '.'), mant.dropWhile (fun c => c != '.') with
+  | ip, [] => (digitsVal ip).map (fun p => (p.1 : Rat))
+  | ip, _ :: fp =>
+    if ip.isEmpty then (digitsVal fp).map (fun p => (p.1 : Rat) * pow10 (-(p.2 : Int)))
+    else if fp.isEmpty then (digitsVal ip).map (fun p => (p.1 : Rat))
+    else match digitsVal ip, digitsVal fp with
+      | some a, some b => some ((a.1 : Rat) + (b.1 : Rat) * pow10 (-(b.2 : Int)))
+      | _, _ => Option.none
+
 /-- unsigned decimal float literal: `digits [. [digits]] [e[+-]digits]` or `. digits [e…]` -/
 def ratOfUnsigned (s : List Char) : Option Rat :=
-  let (mant, ex) := match s.span (fun c => c != 'e' && c != 'E') with
-    | (m, []) => (m, Option.none)
-    | (m, _ :: e) => (m, some e)
-  let expo : Option Int := match ex with
-    | Option.none => some 0
-    | some ('-' :: r) => (digitsVal r).map (fun p => - (p.1 : Int))
-    | some ('+' :: r) => (digitsVal r).map (fun p => (p.1 : Int))
-    | some r => (digitsVal r).map (fun p => (p.1 : Int))
-  let mantQ : Option Rat := match mant.span (fun c => c != '.') with
-    | (ip, []) => (digitsVal ip).map (fun p => (p.1 : Rat))
-    | (ip, _ :: fp) =>
-      if ip.isEmpty then (digitsVal fp).map (fun p => (p.1 : Rat) * pow10 (-(p.2 : Int)))
-      else if fp.isEmpty then (digitsVal ip).map (fun p => (p.1 : Rat))
-      else match digitsVal ip, digitsVal fp with
-        | some a, some b => some ((a.1 : Rat) + (b.1 : Rat) * pow10 (-(b.2 : Int)))
-        | _, _ => Option.none
-  match mantQ, expo with
+  match mantOf (s.takeWhile (fun c => c != 'e' && c != 'E')), expoOf (s.dropWhile (fun c => c != 'e' && c != 'E')) with
   | some m, some e => some (m * pow10 e)
   | _, _ => Option.none
 
-/-- `float(str)` for finite decimal spellings (`inf` / `nan` spellings are outside the modelled alphabet) -/
+/-- `float(str)` for finite decimal spellings, digits of any script (`inf` / `nan` spellings are outside the modelled
+    alphabet) -/
 def ratOfStr (s : List Char) : Option Rat :=
-  match strip s with
-  | '-' :: r => (ratOfUnsigned r).map (fun q => -q)
-  | '+' :: r => ratOfUnsigned r
-  | r => ratOfUnsigned r
+  match (strip s).map asciiDigit with
+  | [] => Option.none
+  | c :: r =>
+    if c = '-' then (ratOfUnsigned r).map (fun q => -q)
+    else if c = '+' then ratOfUnsigned r
+    else ratOfUnsigned (c :: r)
 
 /-- truncation toward zero -/
 def ratTrunc (q : Rat) : Int := if q ≥ 0 then q.floor else - (-q).floor
